@@ -198,6 +198,26 @@ Proof.
   exists sym, t, x. repeat split; assumption.
 Qed.
 
+Lemma do_hook_frame s c from to amt s' : do_hook s c from to amt = ROk s' ->
+  tokens s' = tokens s /\ minunits s' = minunits s /\ nc s' = nc s /\ burned s' = burned s /\ registry s' = registry s.
+Proof.
+  intros H. apply do_hook_inv in H. destruct H as (sym0 & t & s2 & _ & _ & _ & _ & _ & _ & Hm & Hp).
+  pose proof (bank_only_next _ _ (bank_mint_only _ _ _ _ Hm)) as Hn1.
+  pose proof (bank_only_next _ _ (bank_pay_only _ _ _ _ _ Hp)) as Hn2.
+  apply bank_mint_only, bank_only_fields in Hm. destruct Hm as (Ht1 & Hm1 & _ & _ & Hb1 & _ & _ & Hr1 & _).
+  apply bank_pay_only, bank_only_fields in Hp. destruct Hp as (Ht2 & Hm2 & _ & _ & Hb2 & _ & _ & Hr2 & _).
+  simpl in *. repeat split; congruence.
+Qed.
+
+Lemma do_hook_multi_frame evs : forall s s', do_hook_multi s evs = ROk s' ->
+  tokens s' = tokens s /\ minunits s' = minunits s /\ nc s' = nc s /\ burned s' = burned s /\ registry s' = registry s.
+Proof.
+  induction evs as [|[[[c from] to] amt] r IH]; simpl; intros s s' H.
+  - inversion H. repeat split.
+  - inv_bind H. apply do_hook_frame in E. apply IH in H.
+    destruct E as (A1 & A2 & A3 & A4 & A5). destruct H as (B1 & B2 & B3 & B4 & B5). repeat split; congruence.
+Qed.
+
 Lemma do_upgrade_inv s auth s' : do_upgrade s auth = ROk s' -> s' = s.
 Proof. unfold do_upgrade. intros H. inv_if H. inv_if H. inv_if H. inv_if H. inversion H. reflexivity. Qed.
 
@@ -323,6 +343,8 @@ Proof.
     apply TSsame; simpl in *; congruence.
   - (* UpgradeErc20 *)
     apply do_upgrade_inv in H. subst s'. apply TSsame; reflexivity.
+  - (* HookMulti *)
+    apply do_hook_multi_frame in H. destruct H as (Ht & Hm & Hn & _). apply TSsame; assumption.
 Qed.
 
 (** ** the registry invariant is preserved by every message *)
@@ -466,7 +488,7 @@ Definition CapOK (s : state) : Prop :=
 
 (** every message except the two that mint without looking at the cap *)
 Definition cap_checked (m : msg) : bool :=
-  match m with FromErc20 _ _ _ _ | SwapFee _ _ _ _ | HookToNative _ _ _ _ => false | _ => true end.
+  match m with FromErc20 _ _ _ _ | SwapFee _ _ _ _ | HookToNative _ _ _ _ | HookMulti _ => false | _ => true end.
 
 Lemma pow10_nonneg n : 0 <= pow10 n.
 Proof. unfold pow10. apply Z.pow_nonneg. lia. Qed.
@@ -753,6 +775,7 @@ Proof.
   - apply do_hook_inv in E. destruct E as (sym0 & t & s2 & _ & _ & _ & _ & _ & _ & Hm & Hp).
     rewrite (burned_of_bank_only _ _ d (bank_pay_only _ _ _ _ _ Hp)), (burned_of_bank_only _ _ d (bank_mint_only _ _ _ _ Hm)). reflexivity.
   - apply do_upgrade_inv in E. subst s'. reflexivity.
+  - apply do_hook_multi_frame in E. destruct E as (_ & _ & _ & Hb & _). unfold burned_of. rewrite Hb. reflexivity.
 Qed.
 
 Lemma run_burned ms : forall s d, IdInv s -> burned_of (run s ms) d = burned_of s d + burnt_in s ms d.
